@@ -1,6 +1,6 @@
 """C11 - JSON wrapper guards, cJSON child-list shape, escape accounting and number printing structure (DESIGN.md section 4, C11)."""
 from sa import rules as RU
-from sa.cfg import dominators, ev_dominates
+from sa.cfg import dominators, ev_dominates, Typestate
 from sa.extract import library_units
 from sa.rules import argstr, where
 from sa.shape import Interp, Heap, ShapeError
@@ -276,6 +276,47 @@ def print_wrap(R, P):
         R.check(len(ih) == 1 and "s_aws_cJSON_alloc" in txt and "s_aws_cJSON_free" in txt, "PRINT-WRAP", "module-allocator-hooks", "%s()" % f.name, "cJSON allocates through the module allocator")
 
 
+def depth_balance(R, P):
+    """DEPTH: the nesting counters of the vendored parser and printer are balanced: in parse_array / parse_object /
+    print_array / print_object every path from the increment to a successful return passes exactly one decrement, so
+    siblings do not use up the nesting limit (a document with 1000 empty arrays side by side re-parses) and the
+    indentation depth of the formatted printer returns to its level."""
+    n = 0
+    for name in ("parse_array", "parse_object", "print_array", "print_object"):
+        f = P.fn(name)
+        if not R.require(f is not None, "%s not found in cJSON.c" % name):
+            continue
+        R.fn(f)
+        incs, decs = [], []
+        for e in f.all_events():
+            if e.kind == "access" and e.node["k"] == "member" and e.node["f"] == "depth" and e.mode in ("rw", "w"):
+                # find the enclosing ++/--
+                for b in f.blocks.values():
+                    for el in b.elems:
+                        for x in f.walk(el):
+                            if x["k"] == "un" and f.d(x["a"][0]) is e.node:
+                                if "++" in x["op"] or x["op"] in ("postinc", "preinc"):
+                                    incs.append(e)
+                                elif "--" in x["op"] or x["op"] in ("postdec", "predec"):
+                                    decs.append(e)
+        if not R.require(len(incs) == 1 and len(decs) >= 1, "%s: depth increment / decrement not found (%d/%d)" % (name, len(incs), len(decs))):
+            continue
+        ts = Typestate(f, 0, lambda e, s: min(s + 1, 3) if any(e is i for i in incs) else (s - 1 if any(e is d for d in decs) and s > -2 else s))
+        bad = []
+        for r_ in f.returns():
+            v = RU.uncast(f, r_.node["a"][0]) if r_.node["a"] else None
+            while v is not None and v["k"] == "cast":
+                v = f.d(v["a"][0])
+            if v is not None and f.is_const(v) == 1:
+                sts_ = ts.before.get(r_.pos, set())
+                n += 1
+                if sts_ != {0}:
+                    bad.append((r_.node["loc"][0], sorted(sts_)))
+        R.check(not bad, "TREE-SHAPE", "depth-balanced:%s" % name, "%s in %s()" % (CJ, name), "every successful return has undone the depth increment",
+                "a successful return of %s leaves the nesting counter changed (line, net change: %s): each such value permanently uses up one level of the nesting limit, so valid output of the serialiser (many empty arrays side by side) is refused on re-parsing" % (name, bad))
+    R.require(n >= 4, "depth balance: only %d successful returns analysed" % n)
+
+
 def analyse(ctx, replace=None, only=None):
     R = ctx.R
     units = [u for u in library_units(ctx.ex.repo) if "external" not in u or u.endswith("cJSON.c")]
@@ -285,6 +326,7 @@ def analyse(ctx, replace=None, only=None):
     guards(R, P)
     tmpkey(R, P)
     tree_shape(R, P)
+    depth_balance(R, P)
     escapes(R, P)
     numbers(R, P)
     print_wrap(R, P)
@@ -296,6 +338,7 @@ MUTANTS = [
     {"name": "remove-case-sensitive", "file": FILE, "expect": "GUARD", "old": "    cJSON_DeleteItemFromObject(cjson, key);", "new": "    cJSON_DeleteItemFromObjectCaseSensitive(cjson, key);"},
     {"name": "array-index-off-by-one", "file": FILE, "expect": "GUARD", "old": "    if (index >= (size_t)cJSON_GetArraySize(cjson)) {\n        return aws_raise_error(AWS_ERROR_INVALID_INDEX);\n    }\n\n    cJSON_DeleteItemFromArray", "new": "    if (index > (size_t)cJSON_GetArraySize(cjson)) {\n        return aws_raise_error(AWS_ERROR_INVALID_INDEX);\n    }\n\n    cJSON_DeleteItemFromArray"},
     {"name": "tmp-key-leaked", "file": FILE, "expect": "TMPKEY", "old": "    bool result = aws_json_value_has_key_c_str(object, aws_string_c_str(tmp));\n\n    aws_string_destroy_secure(tmp);\n    return result;", "new": "    bool result = aws_json_value_has_key_c_str(object, aws_string_c_str(tmp));\n    if (!result) {\n        return result;\n    }\n    aws_string_destroy_secure(tmp);\n    return result;"},
+    {"name": "empty-array-keeps-depth", "file": CJ, "expect": "TREE-SHAPE", "old": "        goto fail; /* expected end of array */\n    }\n\nsuccess:\n    input_buffer->depth--;\n", "new": "        goto fail; /* expected end of array */\n    }\n    input_buffer->depth--;\n\nsuccess:\n"},
     {"name": "detach-last-keeps-tail", "file": CJ, "expect": "TREE-SHAPE", "old": "    else if (item->next == NULL)\n    {\n        /* last element */\n        parent->child->prev = item->prev;\n    }", "new": ""},
     {"name": "append-forgets-tail", "file": CJ, "expect": "TREE-SHAPE", "old": "            suffix_object(child->prev, item);\n            array->child->prev = item;", "new": "            suffix_object(child->prev, item);"},
     {"name": "escape-count-drops-b-f", "file": CJ, "expect": "ESCAPE-AGREE", "old": "            case '\\b':\n            case '\\f':\n            case '\\n':\n            case '\\r':\n            case '\\t':\n                /* one character escape sequence */", "new": "            case '\\n':\n            case '\\r':\n            case '\\t':\n                /* one character escape sequence */"},
